@@ -247,7 +247,9 @@ where
     }
 
     fn call(&mut self, req: Req) -> Self::Future {
-        let mut service = self.inner.clone();
+        // Take the instance that `poll_ready` was driven on and leave a fresh clone behind
+        let clone = self.inner.clone();
+        let mut service = std::mem::replace(&mut self.inner, clone);
         let config = Arc::clone(&self.config);
 
         // Extract max_attempts from request before moving it
